@@ -559,10 +559,8 @@ class NodeDeref:
 
     def __repr__(self):
         return (
-            self.expression
-            + "["
-            + self.index
-            + (", " + self.default_value if self.default_value else "")
+            f"{self.expression}[{self.index}"
+            + (f", {self.default_value}" if self.default_value else "")
             + "]"
         )
 
